@@ -403,3 +403,30 @@ Qed.
 
 (* the part of a W-bit accumulator above bit k: zeros (unsigned routine) or ones (negative source) *)
 Definition hi (neg : bool) (W k : Z) : Z := if neg then 2 ^ W - 2 ^ k else 0.
+
+(* ================================================================== *)
+(** * 7. Modular arithmetic on a word assembled from a low part and a shifted field *)
+
+Lemma low_high_mod a d k r : 0 <= k -> 0 <= r -> 0 <= a < 2 ^ k ->
+  (a + d * 2 ^ k) mod 2 ^ (k + r) = a + (d mod 2 ^ r) * 2 ^ k.
+Proof.
+  intros Hk Hr Ha. rewrite pow2_add by lia.
+  pose proof (pow2_pos k Hk). pose proof (pow2_pos r Hr).
+  rewrite Z.rem_mul_r by lia. rewrite Z_mod_plus_full, Z.div_add by lia.
+  rewrite Z.mod_small, Z.div_small by lia. rewrite Z.add_0_l. lia.
+Qed.
+
+Lemma shifted_mod x k r : 0 <= k -> 0 <= r -> (x * 2 ^ k) mod 2 ^ (k + r) = (x mod 2 ^ r) * 2 ^ k.
+Proof. intros. rewrite <- (Z.add_0_l (x * 2 ^ k)). rewrite low_high_mod by (try lia; pose proof (pow2_pos k); lia). lia. Qed.
+
+Lemma mod_compl y M : 0 < M -> (-1 - y) mod M = M - 1 - y mod M.
+Proof.
+  intros. apply mod_intro with (q := - (y / M) - 1).
+  - pose proof (Z.mod_pos_bound y M ltac:(lia)). lia.
+  - pose proof (Z.div_mod y M ltac:(lia)). lia.
+Qed.
+
+Lemma pow2_mod_0 a b : 0 <= a <= b -> 2 ^ b mod 2 ^ a = 0.
+Proof.
+  intros. rewrite (pow2_split a b) by lia. rewrite Z.mul_comm. apply Z_mod_mult.
+Qed.
